@@ -43,7 +43,10 @@ func verifBrowserBinding(b string) bool {
 // against arbitrary registry contents.
 func Harness_C05_validate() {
 	idp := &IdentityProvider{Key: verifTestSigner(0, 0), Certificate: verifTestCert(0, 0)}
-	idp.SSOURL = verifNondetURL("idp.SSOURL")
+	overHTTP := verifChoose("http.request", 2) == 1
+	if !overHTTP {
+		idp.SSOURL = verifNondetURL("idp.SSOURL")
+	}
 	idp.MetadataURL = verifNondetURL("idp.MetadataURL")
 	md := &EntityDescriptor{}
 	verifHavoc("md", md)
@@ -56,7 +59,7 @@ func Harness_C05_validate() {
 	ar := &AuthnRequest{}
 	verifHavoc("ar", ar)
 	req := &IdpAuthnRequest{IDP: idp, Now: now, RequestBuffer: verifMarshalXML(ar)}
-	if verifChoose("http.request", 2) == 1 {
+	if overHTTP {
 		// the request as received over HTTP: the Host header is whatever the sender wrote
 		// (the IdP's own name or another one), the SSO URL a concrete one
 		u, perr := url.Parse("https://idp.example.com/saml/sso")
@@ -150,7 +153,10 @@ func Harness_C05_validate() {
 // Harness_C09_idpvalidate: Validate never panics.
 func Harness_C09_idpvalidate() {
 	idp := &IdentityProvider{Key: verifTestSigner(0, 0), Certificate: verifTestCert(0, 0)}
-	idp.SSOURL = verifNondetURL("idp.SSOURL")
+	overHTTP := verifChoose("http.request", 2) == 1
+	if !overHTTP {
+		idp.SSOURL = verifNondetURL("idp.SSOURL")
+	}
 	idp.MetadataURL = verifNondetURL("idp.MetadataURL")
 	md := &EntityDescriptor{}
 	verifHavoc("md", md)
@@ -163,7 +169,7 @@ func Harness_C09_idpvalidate() {
 	ar := &AuthnRequest{}
 	verifHavoc("ar", ar)
 	req := &IdpAuthnRequest{IDP: idp, Now: now, RequestBuffer: verifMarshalXML(ar)}
-	if verifChoose("http.request", 2) == 1 {
+	if overHTTP {
 		// the request as received over HTTP: the Host header is whatever the sender wrote
 		// (the IdP's own name or another one), the SSO URL a concrete one
 		u, perr := url.Parse("https://idp.example.com/saml/sso")
